@@ -37,7 +37,7 @@ fn flat(width: u32) -> Vec<Reg> {
     (1..=width).map(|t| Reg::Sys { tag: t, name: format!("s{}", t), deps: vec![], reads: vec![], writes: vec![100 + t], time: 3, kind: SysKind::Dynamic }).collect()
 }
 
-/// cfg: user | default | batch | async | batch2 | batchdeep | seqbatch | afterpanic | sendrunnow | foreign | defforeign (default pool) | asyncforeign | asyncdefforeign | asyncdouble | defbatch | batchfirst ; returns "arrived=<max simultaneously inside>;timeout=<0|1>;ok=<0|1>" per repetition
+/// cfg: user | default | batch | async | batch2 | batchdeep | seqbatch | afterpanic | sendrunnow | asyncpair | foreign | defforeign (default pool) | asyncforeign | asyncdefforeign | asyncdouble | defbatch | batchfirst ; returns "arrived=<max simultaneously inside>;timeout=<0|1>;ok=<0|1>" per repetition
 pub fn observe(cfg: &str, width: u32, pool_size: usize, reps: u32, limit_ms: u64) -> String {
     let rec = Recorder::new(MapMode::B);
     rec.set_caller();
@@ -99,7 +99,23 @@ pub fn observe(cfg: &str, width: u32, pool_size: usize, reps: u32, limit_ms: u64
     let rv = Arc::new(Rendezvous { width: width as usize, arrived: Mutex::new((0, 0)), cv: Condvar::new(), limit: Duration::from_millis(limit_ms),
                                    timed_out: Mutex::new(false), max_seen: Mutex::new(0) });
     let mut res = Vec::new();
-    if cfg == "async" || cfg == "asyncforeign" || cfg == "asyncdouble" || cfg == "asyncdefforeign" {
+    if cfg == "asyncpair" {
+        // two async dispatchers on ONE pool: a dispatch that has finished must not keep a pool thread until it is collected
+        // (dispatch both, wait for the second first)
+        let out2 = build(&regs, &rec, Some(&pool));
+        let b2 = match out2.builder { Some(b) => b, None => return "builderr".into() };
+        let mut d1 = builder.build_async(make_world(&regs, MapMode::B));
+        let mut d2 = b2.build_async(make_world(&regs, MapMode::B));
+        let _ = catch_unwind(AssertUnwindSafe(|| { d1.setup(); d2.setup(); }));
+        let _ = rec.take();
+        rec.set_sched(rv.clone());
+        for _ in 0..reps {
+            rv.reset(); *rv.max_seen.lock().unwrap() = 0;
+            let r = catch_unwind(AssertUnwindSafe(|| { d1.dispatch(); d2.dispatch(); d2.wait(); d1.wait(); }));
+            res.push(format!("arrived={}:timeout={}:ok={}", *rv.max_seen.lock().unwrap(), *rv.timed_out.lock().unwrap() as u8, r.is_ok() as u8));
+            if *rv.timed_out.lock().unwrap() { break; }
+        }
+    } else if cfg == "async" || cfg == "asyncforeign" || cfg == "asyncdouble" || cfg == "asyncdefforeign" {
         let world = make_world(&regs, MapMode::B);
         let mut ad = builder.build_async(world);
         let _ = catch_unwind(AssertUnwindSafe(|| ad.setup()));
